@@ -15,6 +15,10 @@ EXPECTED = [
     ('scriptDiffCache', 'Bool', 'true'),
     ('parsoMemValid', 'String', '"p_time <= module_cache_item.change_time"'),
     ('parsoPickleOutdated', 'String', '"p_time > os.path.getmtime(cache_path)"'),
+    ('defRangeScopeTypes', 'List String', lean_list(['function', 'class'])),
+    ('defRangeNewlineType', 'String', lean_str('newline')),
+    ('defRangeUsesPreviousLeafEnd', 'Bool', 'true'),
+    ('defRangeStartShape', 'List String', lean_list(['tree_name is None -> None', 'definition is None -> name.start_pos', 'definition.start_pos'])),
 ]
 
 
@@ -31,6 +35,7 @@ def generate(repo, g):
     try:
         _generate(repo, g)
         _script_parse(repo, g)
+        _def_range(repo, g)
     except TieBroken:
         for name, typ, value in EXPECTED:
             if name not in defined:
@@ -39,6 +44,56 @@ def generate(repo, g):
         raise
     finally:
         g.define = orig_define
+
+
+def _def_range(repo, g):
+    """BaseName.get_definition_start_position / get_definition_end_position, statement by statement
+    (Model/DefRange.lean is their transcription)"""
+    classes = Src(repo, 'jedi/api/classes.py')
+    st = classes.find('BaseName.get_definition_start_position')
+    body = [u(x) for x in st.body if not (isinstance(x, ast.Expr) and isinstance(x.value, ast.Constant))]
+    want = ['if self._name.tree_name is None:\n    return None',
+            'definition = self._name.tree_name.get_definition()',
+            'if definition is None:\n    return self._name.start_pos',
+            'return definition.start_pos']
+    if body != want:
+        raise TieBroken('classes.py: BaseName.get_definition_start_position is not the modelled function', repr(body))
+    g.define('defRangeStartShape', 'List String',
+             lean_list(['tree_name is None -> None', 'definition is None -> name.start_pos', 'definition.start_pos']),
+             'jedi/api/classes.py:BaseName.get_definition_start_position, statement by statement')
+    en = classes.find('BaseName.get_definition_end_position')
+    body = [x for x in en.body if not (isinstance(x, ast.Expr) and isinstance(x.value, ast.Constant))]
+    texts = [u(x) for x in body]
+    if len(body) != 5 or texts[0] != want[0] or texts[1] != want[1] \
+            or texts[2] != 'if definition is None:\n    return self._name.tree_name.end_pos' \
+            or texts[4] != 'return definition.end_pos' or not isinstance(body[3], ast.If):
+        raise TieBroken('classes.py: BaseName.get_definition_end_position is not the modelled function', repr(texts))
+    scope_if = body[3]
+    t = scope_if.test
+    if not (isinstance(t, ast.Compare) and len(t.ops) == 1 and isinstance(t.ops[0], ast.In) and u(t.left) == 'self.type'
+            and isinstance(t.comparators[0], (ast.Tuple, ast.List)) and not scope_if.orelse):
+        raise TieBroken('classes.py: get_definition_end_position: the scope test is not `self.type in (...)`', u(t))
+    types = [ast.literal_eval(e) for e in t.comparators[0].elts]
+    inner = [u(x) for x in scope_if.body]
+    if len(scope_if.body) != 3 or inner[0] != 'last_leaf = definition.get_last_leaf()' \
+            or inner[2] != 'return last_leaf.end_pos' or not isinstance(scope_if.body[1], ast.If):
+        raise TieBroken('classes.py: get_definition_end_position: body of the function/class branch', repr(inner))
+    nl = scope_if.body[1]
+    nt = nl.test
+    if not (isinstance(nt, ast.Compare) and len(nt.ops) == 1 and isinstance(nt.ops[0], ast.Eq)
+            and u(nt.left) == 'last_leaf.type' and isinstance(nt.comparators[0], ast.Constant)) or nl.orelse \
+            or len(nl.body) != 1 or not isinstance(nl.body[0], ast.Return):
+        raise TieBroken('classes.py: get_definition_end_position: the newline test', u(nl))
+    g.define('defRangeScopeTypes', 'List String', lean_list(types),
+             'jedi/api/classes.py:BaseName.get_definition_end_position `if self.type in (...)`')
+    g.define('defRangeNewlineType', 'String', lean_str(nt.comparators[0].value),
+             'jedi/api/classes.py:BaseName.get_definition_end_position `if last_leaf.type == ...`')
+    ret = u(nl.body[0].value)
+    if ret not in ('last_leaf.get_previous_leaf().end_pos', 'last_leaf.get_previous_leaf().start_pos',
+                   'last_leaf.start_pos'):
+        raise TieBroken('classes.py: get_definition_end_position: what is returned for a trailing newline', ret)
+    g.define('defRangeUsesPreviousLeafEnd', 'Bool', lean_bool(ret == 'last_leaf.get_previous_leaf().end_pos'),
+             'jedi/api/classes.py:BaseName.get_definition_end_position `return last_leaf.get_previous_leaf().end_pos`')
 
 
 def _norm(text):
